@@ -625,17 +625,29 @@ def actOk (sp : Spec) (exempt : List Int) (a : Int) : Bool :=
 def startStates (sp : Spec) : List Int :=
   if sp.multiState then sp.t.stateMap.toList else (sp.t.stateMap.toList.take 1)
 
-/-- Row of a start state: no checkpoint, no accepting action on a character, EOI → "no match"
-(or a rule with hand-written code). -/
+/-- `eoiChain` that refuses checkpoints (used for start states: a checkpoint taken before any
+character is consumed would restore an empty token). -/
+def eoiChainNC (t : Tables) : Nat → Int → Option Int
+  | 0, _ => none
+  | fuel + 1, state =>
+    match getI t.dfa (state * t.numSymbols) with
+    | none => none
+    | some st =>
+      if st ≤ actionStart t then some (actionStart t - st)
+      else if st < 0 then none
+      else eoiChainNC t fuel st
+
+/-- Row of a start state: every entry is a transition or "no match" (no checkpoint, no accepting
+action before a character is consumed), and at the end of the input the EOI column leads to
+"no match" (or to a rule with hand-written code). -/
 def startRowOk (sp : Spec) (exempt : List Int) (s : Int) : Bool :=
   let ns := sp.t.numSymbols.toNat
   let inv := actionStart sp.t - invalidAct sp
   ((List.range ns).all fun c =>
-    if c = 0 then true
-    else match getI sp.t.dfa (s * sp.t.numSymbols + c) with
+    match getI sp.t.dfa (s * sp.t.numSymbols + c) with
       | none => false
       | some e => decide (0 ≤ e) || e == inv) &&
-  (match eoiChain sp.t (numStates sp.t + 1) s with
+  (match eoiChainNC sp.t (numStates sp.t + 1) s with
    | none => false
    | some a => a == invalidAct sp || exempt.contains a)
 
